@@ -205,135 +205,147 @@ def annotate_file(src, fspec, relfile):
             for m in ms:
                 repls.append((m.start(), m.end(), m.expand("\n".join(_strip_blank(b.lines)))))
 
-    for fs in fspec.fns:
-        f = _find_fn(fns, fs.path, relfile)
-        base = "%s::%s" % (short, "::".join(f.container + [f.name]))
-        fn_props[base] = fs.props
-        item_s = toks[f.item_start].start
-        item_e = toks[f.body_close].end if f.body_open is not None else toks[f.semi].end
-        for b in fs.blocks:
-            lines = _strip_blank(b.lines)
-            if b.kind == "attr":
-                ins(line_start(item_s), b.arg + "\n", order=-1)
-            elif b.kind == "ret":
-                if f.arrow is None:
-                    raise AnchorLost("%s: @ret on `%s` which has no return type" % (relfile, fs.path))
-                ins(toks[f.ret_start].start, "(%s: " % b.arg.strip())
-                ins(toks[f.ret_end].end, ")", order=-5)
-            elif b.kind == "spec":
-                marked, ids = _mark_clauses(lines, base)
-                for i in ids:
-                    obligations.append({"id": i, "fn": base, "props": fs.props})
-                anchor = toks[f.body_open].start if f.body_open is not None else toks[f.semi].start
-                ins(anchor, "\n" + "\n".join(marked) + "\n", order=1)
-            elif b.kind == "loop":
-                n = int(b.arg.strip())
-                if n > len(f.loops):
-                    raise AnchorLost("%s: `%s` has %d loops, contract refers to loop %d" % (relfile, fs.path, len(f.loops), n))
-                lp = f.loops[n - 1]
-                marked, ids = _mark_clauses(lines, "%s::loop%d" % (base, n))
-                for i in ids:
-                    obligations.append({"id": i, "fn": base, "props": fs.props})
-                ins(toks[lp.open].start, "\n" + "\n".join(marked) + "\n")
-            elif b.kind == "at":
-                arg = b.arg.strip()
-                text = "\n" + "\n".join(l + "   /*@V:%s::proof@%s*/" % (base, re.sub(r"[^A-Za-z0-9]+", "_", arg)) if l.strip() else l for l in lines) + "\n"
-                m = re.match(r"^loop (\d+) (start|end)$", arg)
-                m2 = re.match(r"^(?:after|before) loop (\d+)$", arg)
-                m3 = re.match(r"^(before|after) /(.*)/$", arg)
-                if arg == "entry":
-                    ins(toks[f.body_open].end, text)
-                elif arg == "end":
-                    ins(toks[f.body_close].start, text)
-                elif m or m2:
-                    n = int((m or m2).group(1))
+    def _one_fn(fs):
+            f = _find_fn(fns, fs.path, relfile)
+            base = "%s::%s" % (short, "::".join(f.container + [f.name]))
+            fn_props[base] = fs.props
+            item_s = toks[f.item_start].start
+            item_e = toks[f.body_close].end if f.body_open is not None else toks[f.semi].end
+            for b in fs.blocks:
+                lines = _strip_blank(b.lines)
+                if b.kind == "attr":
+                    ins(line_start(item_s), b.arg + "\n", order=-1)
+                elif b.kind == "ret":
+                    if f.arrow is None:
+                        raise AnchorLost("%s: @ret on `%s` which has no return type" % (relfile, fs.path))
+                    ins(toks[f.ret_start].start, "(%s: " % b.arg.strip())
+                    ins(toks[f.ret_end].end, ")", order=-5)
+                elif b.kind == "spec":
+                    marked, ids = _mark_clauses(lines, base)
+                    for i in ids:
+                        obligations.append({"id": i, "fn": base, "props": fs.props})
+                    anchor = toks[f.body_open].start if f.body_open is not None else toks[f.semi].start
+                    ins(anchor, "\n" + "\n".join(marked) + "\n", order=1)
+                elif b.kind == "loop":
+                    n = int(b.arg.strip())
                     if n > len(f.loops):
-                        raise AnchorLost("%s: `%s` has %d loops, proof block refers to loop %d" % (relfile, fs.path, len(f.loops), n))
+                        raise AnchorLost("%s: `%s` has %d loops, contract refers to loop %d" % (relfile, fs.path, len(f.loops), n))
                     lp = f.loops[n - 1]
-                    if m and m.group(2) == "start":
-                        ins(toks[lp.open].end, text)
-                    elif m:
-                        ins(toks[lp.close].start, text)
-                    elif arg.startswith("before"):
-                        ins(line_start(toks[lp.kw_tok].start), text.lstrip("\n"))
+                    marked, ids = _mark_clauses(lines, "%s::loop%d" % (base, n))
+                    for i in ids:
+                        obligations.append({"id": i, "fn": base, "props": fs.props})
+                    ins(toks[lp.open].start, "\n" + "\n".join(marked) + "\n")
+                elif b.kind == "at":
+                    arg = b.arg.strip()
+                    text = "\n" + "\n".join(l + "   /*@V:%s::proof@%s*/" % (base, re.sub(r"[^A-Za-z0-9]+", "_", arg)) if l.strip() else l for l in lines) + "\n"
+                    m = re.match(r"^loop (\d+) (start|end)$", arg)
+                    m2 = re.match(r"^(?:after|before) loop (\d+)$", arg)
+                    m3 = re.match(r"^(before|after) /(.*)/$", arg)
+                    if arg == "entry":
+                        ins(toks[f.body_open].end, text)
+                    elif arg == "end":
+                        ins(toks[f.body_close].start, text)
+                    elif m or m2:
+                        n = int((m or m2).group(1))
+                        if n > len(f.loops):
+                            raise AnchorLost("%s: `%s` has %d loops, proof block refers to loop %d" % (relfile, fs.path, len(f.loops), n))
+                        lp = f.loops[n - 1]
+                        if m and m.group(2) == "start":
+                            ins(toks[lp.open].end, text)
+                        elif m:
+                            ins(toks[lp.close].start, text)
+                        elif arg.startswith("before"):
+                            ins(line_start(toks[lp.kw_tok].start), text.lstrip("\n"))
+                        else:
+                            ins(toks[lp.close].end, text, order=-1)
+                    elif m3:
+                        rx = re.compile(m3.group(2))
+                        body = src[item_s:item_e]
+                        ms = list(rx.finditer(body))
+                        if len(ms) != 1:
+                            raise AnchorLost("%s: `%s`: anchor /%s/ matched %d times" % (relfile, fs.path, rx.pattern, len(ms)))
+                        pos = item_s + ms[0].start()
+                        if m3.group(1) == "before":
+                            ins(line_start(pos), text.lstrip("\n"))
+                        else:
+                            ins(line_end(item_s + ms[0].end()), text.rstrip("\n"))
                     else:
-                        ins(toks[lp.close].end, text, order=-1)
-                elif m3:
-                    rx = re.compile(m3.group(2))
+                        raise ValueError("bad @at argument: " + arg)
+                elif b.kind == "closure":
+                    n = int(b.arg.strip())
+                    if n > len(f.closures):
+                        raise AnchorLost("%s: `%s` has %d closures, contract refers to closure %d" % (relfile, fs.path, len(f.closures), n))
+                    cl = f.closures[n - 1]
+                    marked, ids = _mark_clauses(lines, "%s::closure%d" % (base, n))
+                    for i in ids:
+                        obligations.append({"id": i, "fn": base, "props": fs.props})
+                    repls.append((toks[cl.bar1].start, toks[cl.bar2].end, "\n".join(marked) + "\n{ "))
+                    ins(toks[cl.body_end].end, " }", order=-9)
+                elif b.kind == "replace":
+                    rx = re.compile(b.arg.strip()[1:-1])
                     body = src[item_s:item_e]
                     ms = list(rx.finditer(body))
                     if len(ms) != 1:
-                        raise AnchorLost("%s: `%s`: anchor /%s/ matched %d times" % (relfile, fs.path, rx.pattern, len(ms)))
-                    pos = item_s + ms[0].start()
-                    if m3.group(1) == "before":
-                        ins(line_start(pos), text.lstrip("\n"))
-                    else:
-                        ins(line_end(item_s + ms[0].end()), text.rstrip("\n"))
-                else:
-                    raise ValueError("bad @at argument: " + arg)
-            elif b.kind == "closure":
-                n = int(b.arg.strip())
-                if n > len(f.closures):
-                    raise AnchorLost("%s: `%s` has %d closures, contract refers to closure %d" % (relfile, fs.path, len(f.closures), n))
-                cl = f.closures[n - 1]
-                marked, ids = _mark_clauses(lines, "%s::closure%d" % (base, n))
-                for i in ids:
-                    obligations.append({"id": i, "fn": base, "props": fs.props})
-                repls.append((toks[cl.bar1].start, toks[cl.bar2].end, "\n".join(marked) + "\n{ "))
-                ins(toks[cl.body_end].end, " }", order=-9)
-            elif b.kind == "replace":
-                rx = re.compile(b.arg.strip()[1:-1])
-                body = src[item_s:item_e]
-                ms = list(rx.finditer(body))
-                if len(ms) != 1:
-                    raise AnchorLost("%s: `%s`: rewrite /%s/ matched %d times" % (relfile, fs.path, rx.pattern, len(ms)))
-                repls.append((item_s + ms[0].start(), item_s + ms[0].end(), ms[0].expand("\n".join(lines))))
-            elif b.kind == "replace-all":
-                rx = re.compile(b.arg.strip()[1:-1])
-                body = src[item_s:item_e]
-                for m0 in rx.finditer(body):
-                    repls.append((item_s + m0.start(), item_s + m0.end(), m0.expand("\n".join(lines))))
-            elif b.kind == "bvl":
-                # R2
-                done = 0
-                for lp in f.loops:
-                    if lp.kw != "loop":
-                        continue
-                    k = None
-                    # token index of the `loop` keyword
-                    for q in range(lp.open - 1, f.body_open, -1):
-                        if toks[q].kind == "id" and toks[q].text == "loop":
-                            k = q
-                            break
-                    if k is None or toks[k - 1].text != "=" or toks[k - 3].text != "let":
-                        continue
-                    var = toks[k - 2].text
-                    repls.append((toks[k - 1].start, toks[k - 1].end, ";"))
-                    inner = [l2 for l2 in f.loops if l2 is not lp and lp.open < l2.open < lp.close]
-                    q = lp.open + 1
-                    while q < lp.close:
-                        if any(l2.open < q < l2.close for l2 in inner):
+                        raise AnchorLost("%s: `%s`: rewrite /%s/ matched %d times" % (relfile, fs.path, rx.pattern, len(ms)))
+                    repls.append((item_s + ms[0].start(), item_s + ms[0].end(), ms[0].expand("\n".join(lines))))
+                elif b.kind == "replace-all":
+                    rx = re.compile(b.arg.strip()[1:-1])
+                    body = src[item_s:item_e]
+                    for m0 in rx.finditer(body):
+                        repls.append((item_s + m0.start(), item_s + m0.end(), m0.expand("\n".join(lines))))
+                elif b.kind == "bvl":
+                    # R2
+                    done = 0
+                    for lp in f.loops:
+                        if lp.kw != "loop":
+                            continue
+                        k = None
+                        # token index of the `loop` keyword
+                        for q in range(lp.open - 1, f.body_open, -1):
+                            if toks[q].kind == "id" and toks[q].text == "loop":
+                                k = q
+                                break
+                        if k is None or toks[k - 1].text != "=" or toks[k - 3].text != "let":
+                            continue
+                        var = toks[k - 2].text
+                        repls.append((toks[k - 1].start, toks[k - 1].end, ";"))
+                        inner = [l2 for l2 in f.loops if l2 is not lp and lp.open < l2.open < lp.close]
+                        q = lp.open + 1
+                        while q < lp.close:
+                            if any(l2.open < q < l2.close for l2 in inner):
+                                q += 1
+                                continue
+                            t = toks[q]
+                            if t.kind == "id" and t.text == "break" and toks[q + 1].text not in (";", ",", "}"):
+                                e = q + 1
+                                while True:
+                                    tt = toks[e]
+                                    if tt.kind == "p" and tt.text in "([{":
+                                        e = tt.match + 1
+                                        continue
+                                    if tt.kind == "p" and tt.text in (",", ";", "}"):
+                                        break
+                                    e += 1
+                                expr = src[toks[q + 1].start:toks[e - 1].end]
+                                repls.append((t.start, toks[e - 1].end, "{ %s = (%s); break; }" % (var, expr)))
+                                q = e
+                                continue
                             q += 1
-                            continue
-                        t = toks[q]
-                        if t.kind == "id" and t.text == "break" and toks[q + 1].text not in (";", ",", "}"):
-                            e = q + 1
-                            while True:
-                                tt = toks[e]
-                                if tt.kind == "p" and tt.text in "([{":
-                                    e = tt.match + 1
-                                    continue
-                                if tt.kind == "p" and tt.text in (",", ";", "}"):
-                                    break
-                                e += 1
-                            expr = src[toks[q + 1].start:toks[e - 1].end]
-                            repls.append((t.start, toks[e - 1].end, "{ %s = (%s); break; }" % (var, expr)))
-                            q = e
-                            continue
-                        q += 1
-                    done += 1
-                if not done:
-                    raise AnchorLost("%s: `%s`: no `let x = loop {` found for rewrite R2" % (relfile, fs.path))
+                        done += 1
+                    if not done:
+                        raise AnchorLost("%s: `%s`: no `let x = loop {` found for rewrite R2" % (relfile, fs.path))
+
+
+    lost = []
+    for fs in fspec.fns:
+        saved = (list(edits), list(repls), list(obligations), dict(fn_props))
+        try:
+            _one_fn(fs)
+        except AnchorLost as e:
+            edits[:] = saved[0]; repls[:] = saved[1]; obligations[:] = saved[2]
+            fn_props.clear(); fn_props.update(saved[3])
+            lost.append({'fn': '%s::%s' % (short, fs.path), 'props': fs.props, 'why': str(e), 'twin': fs.twin is not None or fs.drop_body})
+            fs.twin = None; fs.drop_body = False
 
     top = "\n".join(l for b in fspec.blocks if b.kind == "top" for l in b.lines)
     bottom = "\n".join(l for b in fspec.blocks if b.kind == "bottom" for l in b.lines)
@@ -375,7 +387,7 @@ def annotate_file(src, fspec, relfile):
         out = out + "\n#[allow(unused_imports)] use vstd::prelude::*;\nverus! {\n" + top + "\n" + bottom + "\n} // verus!\n"
     if fspec.wrap:
         out = _bytestr_to_array(out, r"^verus! \{")
-    return out, obligations, fn_props
+    return out, obligations, fn_props, lost
 
 
 def _bytestr_to_array(text, wrap_from):
@@ -526,7 +538,8 @@ def annotate_tree(scratch, contracts_dir, only=None):
             raise AnchorLost("%s: file not found" % rel)
         with open(p) as fh:
             src = fh.read()
-        out, obl, fn_props = annotate_file(src, fs, rel)
+        out, obl, fn_props, lost = annotate_file(src, fs, rel)
+        meta.setdefault("lost", []).extend(lost)
         with open(p, "w") as fh:
             fh.write(out)
         meta["files"][rel] = {"linemap": build_line_map(out), "fnranges": fn_line_ranges(out)}
